@@ -394,7 +394,7 @@ def run_c18(ctx):
                         "identity:PresentationUnverifiable": 10, "account:CredentialIssuer": 10, "identity:CredentialIssuer": 10, "account:CredentialType": 5, "identity:CredentialType": 5,
                         "account:SubjectClaims": 10, "identity:SubjectClaims": 10, "account:RequestAnchor": 10, "account:ContextInformation": 10, "account:Network": 5, "account:CredentialExpired": 5,
                         "account:CredentialNotValidYet": 2, "account:NoVraBlockHash": 2, "account:VraBlockHash": 2, "account:InvalidContextPropertyValue": 2, "account:UnknownContextProperty": 2,
-                        "roundtrip": 10, "audit": 10}, parts=14)
+                        "roundtrip": 10, "audit": 10, "timevals": 10}, parts=14)
     ctx.extra["row_histogram"] = first_hist
     ctx.extra["v1_row_histogram"] = v1hist
     ctx.extra["v1_rows"] = len(v1rows)
@@ -411,8 +411,8 @@ def run_c18(ctx):
                 "'verified implies every requested statement true, allowed kind and issuer, valid, made for this request'; every scenario with at most two deviations from the honest one over 12 "
                 "fields (about 60 alternative values: networks, five times around the validity period, five anchored-data differences, seven given-context and seven requested-context variants, "
                 "twelve alterations of the presentation or verification material after proving, claim counts 0..2, allowed kinds, seven issuer lists, four request/statement mismatches) for account "
-                "based and identity based credentials (identity objects issued with real keys), plus 120 statements (equals / range / set atoms over string and numeric attributes at the boundaries) "
-                "with three attribute lists; each row proved with RequestV1::prove_with_rng and verified; the verdict kind is compared when exactly one check fails; JSON and binary round trip of "
+                "based and identity based credentials (identity objects issued with real keys), plus 150 statements (equals / range / set atoms over string, numeric and date-time attributes at the boundaries; date-times from the earliest to the latest representable instant, their "
+                "conversion to attribute values must be invertible and order preserving) with three attribute lists; each row proved with RequestV1::prove_with_rng and verified; the verdict kind is compared when exactly one check fails; JSON and binary round trip of "
                 "every third presentation; audit record of every fourth verified exchange (anchor differs when id, request or presentation differ; CBOR / JSON / binary round trips of anchors, record and request); distinct = distinct rows")
     ctx.assumptions += ["presentations are bound for account and web3 credentials of web3id (Request::prove_with_rng / Presentation::verify incl. issuer-signed commitments and linking signatures); V1 presentations (web3id::v1) for account based and identity based credentials incl. the anchored-request verification",
                         "an account credential's id is not part of the proof (the verifier looks the commitments up by it): 'another credential id' is replayed as verification against that credential's commitments",
